@@ -78,7 +78,7 @@ func flushTypes(e *emitter, cfg *lib.Config, res *lib.Result, budget int) {
 			hi = len(cs)
 		}
 		cf := &lib.CasesFile{Imports: []string{"Model.Base", "Model.Ty", "Model.QuoteLex", "Model.TypePrint", "Corr.CorrC05"},
-			Typ: "ty * str * option ty * list ty * bool", Obligations: map[string]string{"type_print_reparse": "type_mismatches floats cases"}, Prelude: prelude}
+			Typ: "ty * str * option ty * list ty * bool", Obligations: map[string]string{"type_print_reparse": "type_mismatches floats cases", "type_text_expression": "type_expr_mismatches floats cases"}, Prelude: prelude}
 		for _, c := range cs[sh*1000 : hi] {
 			cf.Add(c.term, c.in)
 		}
